@@ -1393,3 +1393,406 @@ Proof.
     - left. auto. }
   destruct G as [G1 G2]. split; [apply J_JM; exact G1|exact G2].
 Qed.
+
+(* ---------- iv_event: rx on/off, register, unregister ---------- *)
+Definition EStep (s s' : core) : Prop :=
+  RawStep s s' /\ EvSame s s' /\ FdI s' (-1) /\ fdt s' = fdt s /\ rw_reg s' = rw_reg s.
+
+Lemma EStep_kern : forall s s', FdI s (-1) ->
+  heap s' = heap s -> time s' = time s -> time_valid s' = time_valid s -> tasks s' = tasks s -> cur s' = cur s ->
+  quit s' = quit s -> method s' = method s -> trace s' = trace s -> fdt s' = fdt s -> handled s' = handled s ->
+  ev_pending s' = ev_pending s -> ev_batch s' = ev_batch s -> ev_count s' = ev_count s -> ev_reg s' = ev_reg s ->
+  use_raw s' = use_raw s -> rw_reg s' = rw_reg s -> active s' = active s -> notify s' = notify s ->
+  pfds s' = pfds s -> pkeys s' = pkeys s ->
+  clock (kern s') = clock (kern s) -> flt (kern s') = flt (kern s) ->
+  (forall e, In e (ep (kern s')) -> In e (ep (kern s)) \/ (is_epoll s = true /\ en_data e = -1)) ->
+  EStep s s'.
+Proof.
+  intros s s' I H1 H2 H3 H4 H5 H6 H7 H8 H9 H10 H11 H12 H13 H14 H15 H16 H17 H18 H19 H20 C F E.
+  split; [|split; [|split; [|split]]]; try assumption.
+  - constructor; try assumption; [apply mst_trace; assumption| |left; assumption].
+    intros i _. rewrite H9. apply fkeep_refl.
+  - constructor; assumption.
+  - apply (FdI_kstep s s' (-1) I); assumption.
+Qed.
+
+Lemma EStep_trans : forall a b c, EStep a b -> EStep b c -> EStep a c.
+Proof.
+  intros a b c (A1 & A2 & A3 & A4 & A5) (B1 & B2 & B3 & B4 & B5).
+  split; [eapply RawStep_trans; eassumption|]. split; [eapply EvSame_trans; eassumption|].
+  split; [assumption|]. split; congruence.
+Qed.
+
+Lemma EStep_refl : forall s, FdI s (-1) -> EStep s s.
+Proof. intros s I. split; [apply RawStep_refl|]. split; [apply EvSame_refl|]. auto. Qed.
+
+Lemma event_rx_on_spec : forall s, FdI s (-1) -> is_epoll s = true ->
+  FdRes s (fst (event_rx_on s)) (fun s' => EStep s s').
+Proof.
+  intros s I IE. unfold event_rx_on.
+  (* creation of the kick descriptor *)
+  assert (A : FdRes s (if active_ref s =? 0
+      then match eventfd_grab (kern s) (efd_epoll s) with
+           | (k1, inl fd, u) =>
+               let '(k2, _) := k_write k1 fd 8 1 in
+               R (set_activefd (set_efd (set_kern s k2) u (efd_raw s)) fd (active_ref s))
+           | (k1, inr _, u) =>
+               let s0 := set_efd (set_kern s k1) u (efd_raw s) in
+               match k_pipe (kern s0) with
+               | (k2, Some (r, w)) =>
+                   let '(k3, wr) := k_write k2 w 1 0 in
+                   match wr with
+                   | inl _ => R (set_activewr (set_activefd (set_kern s0 k3) r (active_ref s0)) w)
+                   | inr _ => halt (set_kern s0 k3) TFatal
+                   end
+               | (k2, None) => halt (set_kern s0 k2) TFatal
+               end
+           end
+      else R s) (fun s' => EStep s s')).
+  { destruct (active_ref s =? 0); [|apply EStep_refl; assumption].
+    pose proof (ksame_grab (kern s) (efd_epoll s)) as KS.
+    destruct (eventfd_grab (kern s) (efd_epoll s)) as [[k1 [fd|e]] u]; cbn [fst] in KS.
+    - pose proof (ksame_write k1 fd 8 1) as KW. destruct (k_write k1 fd 8 1) as [k2 w]. cbn [fst] in KW.
+      destruct (ksame_trans _ _ _ KS KW) as (C & F & E).
+      cbn [FdRes]. apply EStep_kern; try reflexivity; try assumption.
+      cbn [kern set_activefd set_efd set_kern]. rewrite E. auto.
+    - cbv zeta. set (s0 := set_efd (set_kern s k1) u (efd_raw s)).
+      pose proof (ksame_pipe (kern s0)) as KP. change (kern s0) with k1 in KP.
+      change (kern s0) with k1.
+      destruct (k_pipe k1) as [k2 [[r w]|]]; cbn [fst] in KP.
+      + pose proof (ksame_write k2 w 1 0) as KW. destruct (k_write k2 w 1 0) as [k3 wr]. cbn [fst] in KW.
+        destruct (ksame_trans _ _ _ KS (ksame_trans _ _ _ KP KW)) as (C & F & E).
+        destruct wr; cbn [FdRes].
+        * apply EStep_kern; try reflexivity; try assumption.
+          cbn [kern set_activewr set_activefd set_efd set_kern s0]. rewrite E. auto.
+        * apply HaltOf_halt; [reflexivity|left; reflexivity].
+      + apply HaltOf_halt; [reflexivity|left; reflexivity]. }
+  match goal with |- FdRes s (fst (match ?r with R s0 => _ | Halt s0 => _ end)) _ => destruct r as [s1|s1] end;
+    cbn [FdRes fst] in *; [|assumption].
+  destruct A as (A1 & A2 & A3 & A4 & A5).
+  set (s2 := set_activefd s1 (active_fd s1) (active_ref s1 + 1)).
+  destruct (ctl_retry s2 CTL_ADD (active_fd s2) 0 (-1)) as [s3 e] eqn:CT.
+  apply ctl_retry_spec in CT. destruct CT as (k' & -> & CK & FL & EP).
+  assert (IE1 : is_epoll s1 = true) by (rewrite (RawStep_is_epoll _ _ A1); assumption).
+  destruct e as [err|]; cbn [fst FdRes].
+  - eapply EStep_trans; [split; [exact A1|split; [exact A2|split; [exact A3|split; [exact A4|exact A5]]]]|].
+    apply EStep_kern; try reflexivity; try assumption.
+    cbn [kern set_kern]. rewrite EP. auto.
+  - eapply EStep_trans; [split; [exact A1|split; [exact A2|split; [exact A3|split; [exact A4|exact A5]]]]|].
+    apply EStep_kern; try reflexivity; try assumption.
+    cbn [kern set_kern set_numobjs]. unfold CTL_ADD in EP. cbn [Z.eqb Pos.eqb] in EP. rewrite EP.
+    intros e0 H. apply in_app_or in H. destruct H as [H|[H|[]]]; [auto|]. right. subst e0. auto.
+Qed.
+
+Lemma event_rx_on_failed : forall s s', fst (event_rx_on s) = Halt s' -> snd (event_rx_on s) = true.
+Proof.
+  intros s s'. unfold event_rx_on.
+  match goal with |- fst (match ?r with R s0 => _ | Halt s0 => _ end) = _ -> _ => destruct r as [s1|s1] end;
+    [|reflexivity].
+  destruct (ctl_retry _ _ _ _ _) as [s3 e]. destruct e; discriminate.
+Qed.
+
+Lemma event_rx_off_spec : forall s, FdI s (-1) ->
+  FdRes s (event_rx_off s) (fun s' => EStep s s').
+Proof.
+  intros s I. unfold event_rx_off.
+  destruct (ctl_retry s CTL_DEL (active_fd s) 0 (-1)) as [s1 e] eqn:CT.
+  apply ctl_retry_spec in CT. destruct CT as (k' & -> & CK & FL & EP).
+  destruct e as [err|].
+  - apply HaltOf_halt; [reflexivity|left; reflexivity].
+  - cbn [FdRes]. unfold CTL_DEL, CTL_ADD, CTL_MOD in EP. cbn [Z.eqb Pos.eqb] in EP.
+    set (s2 := set_activefd (set_kern s k') (active_fd (set_kern s k')) (active_ref (set_kern s k') - 1)).
+    assert (E2 : EStep s s2).
+    { apply EStep_kern; try reflexivity; try assumption.
+      cbn [s2 kern set_activefd set_kern]. rewrite EP. intros e0 H. apply In_ep_remove in H. tauto. }
+    assert (G : forall s3, EStep s s3 -> EStep s (set_numobjs s3 (numobjs s3 - 1))).
+    { intros s3 E3. eapply EStep_trans; [exact E3|]. destruct E3 as (_ & _ & I3 & _).
+      apply EStep_kern; try reflexivity; auto. }
+    apply G.
+    destruct (active_ref s2 =? 0); [|exact E2].
+    destruct E2 as (B1 & B2 & B3 & B4 & B5).
+    destruct (do_close_step s2 (-1) (active_fd s2) B3) as (R3 & E3 & I3 & F3 & W3 & H3 & _).
+    set (s3 := do_close s2 (active_fd s2)) in *.
+    assert (E03 : EStep s s3).
+    { split; [eapply RawStep_trans; eassumption|]. split; [eapply EvSame_trans; eassumption|].
+      split; [assumption|]. split; congruence. }
+    destruct (active_wr s3 =? -1); [exact E03|].
+    destruct (do_close_step s3 (-1) (active_wr s3) I3) as (R4 & E4 & I4 & F4 & W4 & H4 & _).
+    set (s4 := do_close s3 (active_wr s3)) in *.
+    eapply EStep_trans; [exact E03|].
+    eapply EStep_trans; [split; [exact R4|split; [exact E4|split; [exact I4|split; [exact F4|exact W4]]]]|].
+    apply EStep_kern; try reflexivity; auto.
+Qed.
+
+Definition EvMid (s s1 : core) : Prop :=
+  RawStep s s1 /\ FdI s1 (-1) /\ FdXa s1 /\ ev_pending s1 = ev_pending s /\ ev_batch s1 = ev_batch s /\
+  ev_reg s1 = ev_reg s /\ ev_count s1 = ev_count s + 1 /\ (forall y, inr16 y -> rw_reg s1 y = rw_reg s y).
+
+Definition EvRegGood (s : core) (j : Z) (failed : bool) (s' : core) : Prop :=
+  RawStep s s' /\ FdI s' (-1) /\ FdX s' /\ ev_pending s' = ev_pending s /\ ev_batch s' = ev_batch s /\
+  ev_reg s' = (if failed then ev_reg s else upd (ev_reg s) j true) /\
+  (forall y, inr16 y -> rw_reg s' y = rw_reg s y).
+
+Lemma ev_reg_finish : forall s s1 j, EvMid s s1 -> (rw_reg s1 16 = true -> use_raw s1 = true) ->
+  inr16 j -> ev_reg s j = false -> ev_count s = cnt (ev_reg s) ->
+  EvRegGood s j false (set_ev s1 (ev_count s1) (upd (ev_reg s1) j true) (use_raw s1)).
+Proof.
+  intros s s1 j (M1 & M2 & M3 & M4 & M5 & M6 & M7 & M8) KU I U C.
+  set (s' := set_ev s1 _ _ _). unfold EvRegGood.
+  split; [eapply RawStep_trans; [exact M1|]; constructor; try reflexivity; auto; intros; apply fkeep_refl|].
+  split; [apply (FdI_keep s1 s' (-1) M2); reflexivity|].
+  split; [|split; [exact M4|split; [exact M5|split; [cbn [s' set_ev ev_reg]; rewrite M6; reflexivity|exact M8]]]].
+  apply FdX_join.
+  - exact M3.
+  - cbn [s' set_ev rw_reg use_raw ev_count]. intros H. split; [auto|]. rewrite M7, C. pose proof (cnt_nonneg (ev_reg s)). lia.
+  - cbn [s' set_ev ev_count ev_reg]. rewrite M7, M6, C. symmetry. apply cnt_upd_true; assumption.
+Qed.
+
+Lemma event_register_spec : forall s j, FdI s (-1) -> FdX s -> inr16 j -> ev_reg s j = false ->
+  FdRes s (fst (event_register s j)) (EvRegGood s j (snd (event_register s j))).
+Proof.
+  intros s j I X Ir U.
+  destruct (proj1 (FdX_split _) X) as (XA & XK & XC).
+  unfold event_register. cbv zeta.
+  set (s1 := set_ev (set_numobjs s (numobjs s + 1)) (ev_count (set_numobjs s (numobjs s + 1)) + 1)
+                    (ev_reg (set_numobjs s (numobjs s + 1))) (use_raw (set_numobjs s (numobjs s + 1)))).
+  change (ev_count (set_numobjs s (numobjs s + 1)) =? 0) with (ev_count s =? 0).
+  assert (I1 : FdI s1 (-1)) by (apply (FdI_keep s s1 (-1) I); reflexivity).
+  assert (R1 : RawStep s s1) by (constructor; try reflexivity; auto; intros; apply fkeep_refl).
+  assert (M1 : EvMid s s1).
+  { split; [exact R1|]. split; [exact I1|]. split; [exact XA|]. repeat split; reflexivity. }
+  destruct (Z.eqb_spec (ev_count s) 0) as [C0|CN].
+  2:{ cbn [fst snd bind FdRes]. apply ev_reg_finish; try assumption.
+      intros H. apply XK in H. apply H. }
+  assert (RW16 : rw_reg s 16 = false).
+  { destruct (rw_reg s 16) eqn:E; [|reflexivity]. destruct (XK eq_refl) as [_ H]. contradiction. }
+  (* the state after choosing the wake-up mechanism *)
+  set (rx := if negb (use_raw s1)
+      then if is_epoll s1
+           then match event_rx_on s1 with
+                | (R s1', true) => (R (set_ev s1' (ev_count s1') (ev_reg s1') true), true)
+                | (R s1', false) => (R s1', false)
+                | (Halt s1', _) => (Halt s1', false)
+                end
+           else (R (set_ev s1 (ev_count s1) (ev_reg s1) true), true)
+      else (R s1, true)).
+  assert (Q : FdRes s (fst rx) (fun s2 => EvMid s s2 /\ rw_reg s2 16 = false)).
+  { unfold rx.
+    destruct (negb (use_raw s1)); [|cbn [fst FdRes]; split; [exact M1|exact RW16]].
+    destruct (is_epoll s1) eqn:IE.
+    - pose proof (event_rx_on_spec s1 I1 IE) as Q.
+      assert (MID : forall s2, EStep s1 s2 -> forall u, EvMid s (set_ev s2 (ev_count s2) (ev_reg s2) u) /\
+                     rw_reg (set_ev s2 (ev_count s2) (ev_reg s2) u) 16 = false).
+      { intros s2 (B1 & B2 & B3 & B4 & B5) u. destruct B2 as [E1 E2 E3 E4 E5].
+        set (s3 := set_ev s2 _ _ u).
+        split; [|cbn [s3 set_ev rw_reg]; rewrite B5; exact RW16].
+        split; [eapply RawStep_trans; [exact R1|]; eapply RawStep_trans; [exact B1|];
+                constructor; try reflexivity; auto; intros; apply fkeep_refl|].
+        split; [apply (FdI_keep s2 s3 (-1) B3); reflexivity|].
+        split; [unfold FdXa; cbn [s3 set_ev fdt rw_reg]; rewrite B4, B5; exact XA|].
+        cbn [s3 set_ev ev_pending ev_batch ev_reg ev_count rw_reg].
+        rewrite E1, E2, E3, E4, B5. repeat split; reflexivity. }
+      assert (MID0 : forall s2, EStep s1 s2 -> EvMid s s2 /\ rw_reg s2 16 = false).
+      { intros s2 (B1 & B2 & B3 & B4 & B5). destruct B2 as [E1 E2 E3 E4 E5].
+        split; [|rewrite B5; exact RW16].
+        split; [eapply RawStep_trans; eassumption|]. split; [exact B3|].
+        split; [unfold FdXa; rewrite B4, B5; exact XA|].
+        rewrite E1, E2, E3, E4, B5. repeat split; reflexivity. }
+      destruct (event_rx_on s1) as [[s1'|s1'] fl]; cbn [fst FdRes] in *.
+      + destruct fl; cbn [fst FdRes]; [apply MID; exact Q|apply MID0; exact Q].
+      + eapply HaltOf_same; [|exact Q]. reflexivity.
+    - cbn [fst FdRes]. apply (proj1 (and_comm _ _)). split.
+      + exact RW16.
+      + destruct M1 as (A1 & A2 & A3 & A4 & A5 & A6 & A7 & A8).
+        split; [eapply RawStep_trans; [exact A1|]; constructor; try reflexivity; auto; intros; apply fkeep_refl|].
+        split; [apply (FdI_keep s1 _ (-1) I1); reflexivity|].
+        split; [exact A3|]. repeat split; assumption. }
+  clearbody rx. destruct rx as [r0 su]. cbn [fst] in Q.
+  destruct r0 as [s2|s2]; cbn [FdRes] in Q.
+  2:{ cbn [fst snd bind FdRes]. exact Q. }
+  destruct Q as [M2 RW2].
+  destruct (use_raw s2) eqn:UR.
+  - destruct M2 as (A1 & A2 & A3 & A4 & A5 & A6 & A7 & A8).
+    pose proof (raw_register_spec s2 KICK_RAW A2 A3 ltac:(unfold KICK_RAW; lia) RW2) as Q. unfold RawRegPost in Q.
+    assert (M2s : mst s2 = mst s) by apply (rs_mst _ _ A1).
+    destruct (raw_register s2 KICK_RAW) as [[s3|s3] fl]; cbn [fst snd FdRes] in Q.
+    + destruct Q as (B1 & B2 & B3 & B4 & B5). destruct B2 as [E1 E2 E3 E4 E5].
+      assert (R3 : RawStep s s3) by (eapply RawStep_trans; eassumption).
+      assert (RWU : forall y, inr16 y -> rw_reg s3 y = rw_reg s y).
+      { intros y Y. rewrite B5. rewrite <- (A8 y Y). destruct fl; [reflexivity|].
+        unfold upd. destruct (Z.eqb_spec y KICK_RAW); [unfold inr16, KICK_RAW in *; lia|reflexivity]. }
+      destruct fl; cbn [fst snd bind FdRes].
+      * set (s4 := set_numobjs _ _). unfold EvRegGood.
+        split; [eapply RawStep_trans; [exact R3|]; constructor; try reflexivity; auto; intros; apply fkeep_refl|].
+        split; [apply (FdI_keep s3 s4 (-1) B3); reflexivity|].
+        split; [|cbn [s4 set_numobjs set_ev ev_pending ev_batch ev_reg rw_reg]; rewrite E1, E2, E4; repeat split; assumption].
+        apply FdX_join; [exact B4| |].
+        -- cbn [s4 set_numobjs set_ev rw_reg]. rewrite B5, RW2. discriminate.
+        -- cbn [s4 set_numobjs set_ev ev_count ev_reg]. rewrite E3, E4, A7, A6, <- XC. lia.
+      * apply ev_reg_finish; try assumption.
+        -- split; [exact R3|]. split; [exact B3|]. split; [exact B4|].
+           rewrite E1, E2, E3, E4. repeat split; assumption.
+        -- intros _. rewrite E5. exact UR.
+    + destruct fl; cbn [fst snd bind FdRes]; eapply HaltOf_same; eassumption.
+  - cbn [fst snd bind FdRes]. apply ev_reg_finish; try assumption.
+    intros H. congruence.
+Qed.
+
+Definition EvUnregGood (s : core) (j : Z) (s' : core) : Prop :=
+  RawStep s s' /\ FdI s' (-1) /\ FdX s' /\ ev_pending s' = remove_z j (ev_pending s) /\
+  ev_batch s' = remove_z j (ev_batch s) /\ ev_reg s' = upd (ev_reg s) j false /\
+  (forall y, inr16 y -> rw_reg s' y = rw_reg s y).
+
+Lemma event_unregister_spec : forall s j, FdI s (-1) -> FdX s -> inr16 j -> ev_reg s j = true ->
+  FdRes s (event_unregister s j) (EvUnregGood s j).
+Proof.
+  intros s j I X Ir U.
+  destruct (proj1 (FdX_split _) X) as (XA & XK & XC).
+  unfold event_unregister. cbv zeta.
+  set (s0 := set_evlists s (remove_z j (ev_pending s)) (remove_z j (ev_batch s))).
+  set (s1 := set_ev s0 (ev_count s0 - 1) (upd (ev_reg s0) j false) (use_raw s0)).
+  assert (I1 : FdI s1 (-1)) by (apply (FdI_keep s s1 (-1) I); reflexivity).
+  assert (R1 : RawStep s s1) by (constructor; try reflexivity; auto; intros; apply fkeep_refl).
+  assert (C1 : ev_count s1 = cnt (ev_reg s1)).
+  { cbn [s1 s0 set_ev set_evlists ev_count ev_reg]. rewrite XC. symmetry. apply cnt_upd_false; assumption. }
+  assert (FIN : forall s2, RawStep s1 s2 -> EvSame s1 s2 -> FdI s2 (-1) -> FdXa s2 ->
+            (rw_reg s2 16 = true -> use_raw s2 = true /\ ev_count s2 <> 0) ->
+            (forall y, inr16 y -> rw_reg s2 y = rw_reg s y) ->
+            EvUnregGood s j (set_numobjs s2 (numobjs s2 - 1))).
+  { intros s2 R2 E2 I2 XA2 K2 RWU. destruct E2 as [E1 E2 E3 E4 E5].
+    set (s3 := set_numobjs s2 _). unfold EvUnregGood.
+    split; [eapply RawStep_trans; [exact R1|]; eapply RawStep_trans; [exact R2|];
+            constructor; try reflexivity; auto; intros; apply fkeep_refl|].
+    split; [apply (FdI_keep s2 s3 (-1) I2); reflexivity|].
+    split; [|cbn [s3 set_numobjs ev_pending ev_batch ev_reg rw_reg]; rewrite E1, E2, E4; repeat split; try reflexivity; exact RWU].
+    apply FdX_join; [exact XA2|exact K2|].
+    cbn [s3 set_numobjs ev_count ev_reg]. rewrite E3, E4. exact C1. }
+  destruct (Z.eqb_spec (ev_count s1) 0) as [C0|CN].
+  - destruct (use_raw s1) eqn:UR.
+    + pose proof (raw_unregister_spec s1 KICK_RAW I1 XA ltac:(unfold KICK_RAW; lia)) as Q.
+      destruct (raw_unregister s1 KICK_RAW) as [s2|s2]; cbn [bind FdRes] in *.
+      * destruct Q as (B1 & B2 & B3 & B4 & B5). apply FIN; try assumption.
+        -- rewrite B5. unfold upd, KICK_RAW. cbn. discriminate.
+        -- intros y Y. rewrite B5. unfold upd. destruct (Z.eqb_spec y KICK_RAW); [unfold inr16, KICK_RAW in *; lia|reflexivity].
+      * eapply HaltOf_same; [|exact Q]. reflexivity.
+    + pose proof (event_rx_off_spec s1 I1) as Q.
+      destruct (event_rx_off s1) as [s2|s2]; cbn [bind FdRes] in *.
+      * destruct Q as (B1 & B2 & B3 & B4 & B5). apply FIN; try assumption.
+        -- unfold FdXa. rewrite B4, B5. exact XA.
+        -- rewrite B5. intros H. apply XK in H. destruct H as [H _]. change (use_raw s1) with (use_raw s) in UR. congruence.
+        -- intros y Y. rewrite B5. reflexivity.
+      * eapply HaltOf_same; [|exact Q]. reflexivity.
+  - cbn [bind FdRes]. apply FIN; try assumption.
+    + apply RawStep_refl.
+    + apply EvSame_refl.
+    + intros H. split; [apply XK; exact H|exact CN].
+    + intros; reflexivity.
+Qed.
+
+Lemma act_AEvReg : forall b s j, J b s -> inr16 j -> Post b s (do_action s (AEvReg j)).
+Proof.
+  intros b s j Jh I. unfold do_action. cbv zeta.
+  destruct (ev_reg s j) eqn:RG; [apply Post_same; assumption|].
+  set (ex := emit s (TAct (AEvReg j))).
+  pose proof (event_register_spec ex j (FdI_emit _ _ _ (j_fd _ _ Jh)) (FdX_emit _ _ (j_fx _ _ Jh)) I RG) as Q.
+  assert (GX : Goodm (mst ex)) by (unfold ex; rewrite mst_emit; apply good_TAct; apply (j_good _ _ Jh)).
+  destruct (event_register ex j) as [r failed]. cbn [fst snd] in Q.
+  destruct r as [s1|s1]; cbn [FdRes Post bind] in *; [|eapply HaltOf_good; eassumption].
+  destruct Q as (RS & FI & FX & E1 & E2 & E3 & RWU).
+  set (rc := if failed then -1 else 0).
+  assert (M1 : mst s1 = mst s) by (rewrite (rs_mst _ _ RS); apply mst_act).
+  set (m' := mon_step (mst s1) (TRes 1 j rc)).
+  assert (MV : m' = if failed then mst s else m_evs (mst s) (upd (a_ev (mst s)) j true) (a_evp (mst s))).
+  { unfold m', rc. rewrite M1. destruct failed; reflexivity. }
+  assert (G : JM b s1 m' /\ Fr s s1).
+  { apply (JM_raw b s (TAct (AEvReg j)) s1 m' Jh RS FI FX).
+    - rewrite MV. destruct failed; reflexivity.
+    - unfold m'. rewrite M1. apply good_TRes. apply (j_good _ _ Jh).
+    - rewrite MV. destruct failed; repeat split.
+    - right. rewrite MV. intros y Y. destruct (J_AgEv _ _ Jh y Y) as [A1 A2]. rewrite E3.
+      unfold ev_on_list. rewrite E1, E2. fold (ev_on_list ex y).
+      destruct failed; [split; assumption|]. cbn [a_ev a_evp m_evs]. split; [|exact A2].
+      unfold upd. destruct (Z.eqb_spec y j); [reflexivity|exact A1].
+    - right. rewrite MV. intros y Y. rewrite (RWU y Y). pose proof (J_AgRw _ _ Jh y Y) as A.
+      destruct failed; exact A.
+    - right. destruct (J_SiEv _ _ Jh) as [S1 S2]. unfold SiEv. rewrite E1, E2, E3. split; [|exact S2].
+      intros y H. destruct (S1 y H) as [Y1 Y2]. split; [exact Y1|].
+      destruct failed; [exact Y2|]. unfold upd. destruct (Z.eqb_spec y j); [reflexivity|exact Y2]. }
+  destruct G as [G1 G2]. split; [apply J_emit_step; exact G1|].
+  eapply Fr_trans; [exact G2|apply Fr_plain; reflexivity].
+Qed.
+
+Lemma act_AEvUnreg : forall b s j, J b s -> inr16 j -> Post b s (do_action s (AEvUnreg j)).
+Proof.
+  intros b s j Jh I. unfold do_action. cbv zeta.
+  destruct (ev_reg s j) eqn:RG; [|apply Post_same; assumption].
+  set (ex := emit s (TAct (AEvUnreg j))).
+  pose proof (event_unregister_spec ex j (FdI_emit _ _ _ (j_fd _ _ Jh)) (FdX_emit _ _ (j_fx _ _ Jh)) I RG) as Q.
+  assert (GX : Goodm (mst ex)) by (unfold ex; rewrite mst_emit; apply good_TAct; apply (j_good _ _ Jh)).
+  destruct (event_unregister ex j) as [s1|s1]; cbn [FdRes Post] in *; [|eapply HaltOf_good; eassumption].
+  destruct Q as (RS & FI & FX & E1 & E2 & E3 & RWU).
+  assert (M1 : mst s1 = mon_action (mst s) (AEvUnreg j)) by (rewrite (rs_mst _ _ RS); apply mst_act).
+  assert (LI : forall y, In y (ev_pending s1 ++ ev_batch s1) <-> In y (ev_pending s ++ ev_batch s) /\ y <> j).
+  { intros y. rewrite E1, E2. change (ev_pending ex) with (ev_pending s). change (ev_batch ex) with (ev_batch s).
+    rewrite <- remove_z_app. apply In_remove_z. }
+  assert (G : JM b s1 (mst s1) /\ Fr s s1).
+  { apply (JM_raw b s (TAct (AEvUnreg j)) s1 (mst s1) Jh RS FI FX).
+    - rewrite M1. reflexivity.
+    - rewrite M1. apply good_action. apply (j_good _ _ Jh).
+    - rewrite M1. repeat split.
+    - right. rewrite M1. intros y Y. destruct (J_AgEv _ _ Jh y Y) as [A1 A2]. rewrite E3.
+      cbn [mon_action a_ev a_evp m_evs]. change (ev_reg ex) with (ev_reg s). unfold upd.
+      destruct (Z.eqb_spec y j) as [->|N].
+      + split; [reflexivity|]. intros H. apply ev_on_list_In in H. apply LI in H. tauto.
+      + split; [exact A1|]. intros H. apply A2. apply ev_on_list_In. apply ev_on_list_In in H. apply LI in H. tauto.
+    - right. rewrite M1. intros y Y. rewrite (RWU y Y). apply (J_AgRw _ _ Jh y Y).
+    - right. destruct (J_SiEv _ _ Jh) as [S1 S2]. split.
+      + intros y H. apply LI in H. destruct H as [H N]. destruct (S1 y H) as [Y1 Y2]. split; [exact Y1|].
+        rewrite E3. change (ev_reg ex) with (ev_reg s). unfold upd. destruct (Z.eqb_spec y j); [contradiction|exact Y2].
+      + rewrite E1, E2. change (ev_pending ex) with (ev_pending s). change (ev_batch ex) with (ev_batch s).
+        rewrite <- remove_z_app. apply NoDup_remove_z. exact S2. }
+  destruct G as [G1 G2]. split; [apply J_JM; exact G1|exact G2].
+Qed.
+
+(* ---------- all actions ---------- *)
+Theorem do_action_post : forall b s a, J b s -> wf_action a -> Post b s (do_action s a).
+Proof.
+  intros b s a Jh WF. destruct a; cbn [wf_action] in WF.
+  - apply act_AFdReg; assumption.
+  - apply act_AFdTry; assumption.
+  - apply act_AFdUnreg; assumption.
+  - destruct WF as (W1 & W2 & W3). apply act_AFdSetH; assumption.
+  - apply act_AFdCookie; assumption.
+  - apply act_AFdFresh; assumption.
+  - apply act_AKSet; assumption.
+  - apply act_AKClose; assumption.
+  - apply act_AKOpen; assumption.
+  - apply act_ATmRegAbs; assumption.
+  - apply act_ATmRegRel; assumption.
+  - apply act_ATmUnreg; assumption.
+  - apply act_ATmFresh; assumption.
+  - apply act_ATkReg; assumption.
+  - apply act_ATkUnreg; assumption.
+  - apply act_ATkFresh; assumption.
+  - apply act_AEvReg; assumption.
+  - apply act_AEvUnreg; assumption.
+  - apply act_AEvPost; assumption.
+  - apply act_AEvFresh; assumption.
+  - apply act_ARwReg; assumption.
+  - apply act_ARwUnreg; assumption.
+  - apply act_ARwPost; assumption.
+  - apply act_ARwFresh; assumption.
+  - apply act_AQuit; assumption.
+  - apply act_AClockAdv; assumption.
+  - apply act_AInvalidate; assumption.
+  - apply act_AValidate; assumption.
+Qed.
+
+Lemma run_acts_post : forall b l s, J b s -> Forall wf_action l -> Post b s (run_acts s l).
+Proof.
+  intros b l. induction l as [|a l IH]; intros s Jh WF; cbn [run_acts].
+  - apply Post_same. assumption.
+  - inversion WF as [|? ? W1 W2]; subst.
+    eapply Post_bind; [apply do_action_post; assumption|].
+    intros s1 J1 _. apply IH; assumption.
+Qed.
